@@ -181,6 +181,16 @@ Definition prefix_offdiag_any (d : nat) (Cm : Matc) : T :=
   sumlist Op (map (fun pz => if fst pz =? 0 then o0 Op else cnz_ind (snd pz))
                   (combine (seq 0 (d * d)) (offdiag_flat d Cm))).
 
+Definition bad_count_prefix (d : nat) (bs : list Matc) : T :=
+  sumlist Op (map (fun Cm => omul Op (cnz_ind (tr_clean d Cm)) (oadd Op (prefix_offdiag_any d Cm) (diag_unequal_count d Cm))) bs).
+Definition istraceless_viol_val_prefix (d : nat) (bs : list Matc) : T :=
+  let c := n_nonzero_traces d bs in
+  oite Op (ogt Op c (oadd Op (o1 Op) half)) (o1 Op)
+    (oite Op (ogt Op c half)
+       (oite Op (ogt Op (bad_count_prefix d bs) half) (o1 Op) (o0 Op))
+       (o0 Op)).
+Definition istraceless_viol_prefix (d : nat) (bs : list Matc) : B := ogt Op (istraceless_viol_val_prefix d bs) half.
+
 (* iscomplete: matrix_rank (SVD oracle) == d**2 *)
 Definition iscomplete_of_rank (d rank : nat) : bool := rank =? d * d.
 
